@@ -28,14 +28,16 @@ GOALS = {
               'a process nested in a compartment',
               'initial global time not 0', 'empty update',
               'two ports on one store, update dictionary reused',
-              'port wired with an empty _path', 'emit_step greater than 1'],
+              'port wired with an empty _path', 'emit_step greater than 1',
+              'list-valued variable, update echoes the view'],
     'thorough': ['deferral across a call boundary', 'truncated interval',
                  'quiet poll', 'two processes applied in one batch',
                  'a process runs in a worker',
                  'a process nested in a compartment',
                  'initial global time not 0', 'empty update',
               'two ports on one store, update dictionary reused',
-              'port wired with an empty _path', 'emit_step greater than 1'],
+              'port wired with an empty _path', 'emit_step greater than 1',
+              'list-valued variable, update echoes the view'],
 }
 STUBS = sched_stubs = [
     'stub processes (pure): symbolic timestep per process or per poll, symbolic '
@@ -101,6 +103,8 @@ def jobs(tier):
                       twoports=True))
         J.append(_cfg('emptypath-N2', 2, 1, 3, 'const', 'none', tier,
                       emptypath=True))
+        J.append(_cfg('lists-N2', 2, 1, 3, 'const', 'none', tier, lists=True,
+                      IV=4))
         J.append(_cfg('emitstep-N2', 2, 2, 3, 'const', 'none', tier,
                       emit_step=3))
         J.append(_cfg('nested-N2', 2, 2, 3, 'const', 'none', tier, nested=True))
@@ -130,6 +134,8 @@ def jobs(tier):
         J.append(_cfg('nested-N3', 3, 2, 3, 'const', 'none', tier, nested=True))
         J.append(_cfg('emptypath-N2', 2, 2, 3, 'const', 'none', tier,
                       emptypath=True))
+        J.append(_cfg('lists-N2', 2, 2, 3, 'const', 'none', tier, lists=True,
+                      IV=4))
         J.append(_cfg('emitstep-N2', 2, 3, 3, 'const', 'none', tier,
                       emit_step=4))
         J.append(_cfg('g0-N2', 2, 2, 4, 'const', 'none', tier, g0=5))
@@ -254,6 +260,18 @@ def body(ctx, cfg):
         ctx.observe('row_t', T)
         ctx.observe('z', row['s']['z'])
     ctx.claim('C01.rows', AND(rows), sig='rows', info=describe)
+    if cfg.get('lists'):
+        # every update is applied as it was returned: the final list is as
+        # long as the lists returned (at the moment they were returned), and
+        # holds their elements
+        final = run.engine.state.get_value()['s']['vec']
+        calls = [c for p in run.procs.values() for c in p.ncalls]
+        ctx.claim('C01.rows', AND(
+            len(final) == 1 + sum(c['vec_len'] for c in calls),
+            EQ(sum(final, 0), 1 + sum((c['vec_sum'] for c in calls), 0))),
+            sig='list-accumulate', info=lambda: dict(
+                final=final, returned=[(c['vec_len'], c['vec_sum'])
+                                       for c in calls], **describe()))
     # ---- quiet
     quiet = [q['call'] is None for p in run.procs.values() for q in p.polls
              if q['cond'] is False]
